@@ -49,8 +49,8 @@ type acmeState struct {
 	issued       map[string]string // sha1(crt) -> names, of certificates the stub returned with a key
 	signs        int
 	lastChange   time.Time
-	lastCheckAt  time.Time // last periodic or external check that ran while leading
-	lastOp       time.Time // last operation of the history (cluster change, lease change)
+	lastCheckAt  time.Time       // last periodic or external check that ran while leading
+	lastOp       time.Time       // last operation of the history (cluster change, lease change)
 	grace        map[string]bool // items queued when the lease was lost: the single worker may have one of them in flight
 	graceLeft    int
 	curGate      string
